@@ -158,6 +158,27 @@ def judge_loss(case, obs):
         gaps = [round(b[0] - a[0], 6) for a, b in zip(after, after[1:])]
         if any(abs(g - interval) > 1e-6 for g in gaps):
             out.append(("C17:%s:reconnect-spacing" % drv, "attempts spaced %r, configured interval %r" % (gaps, interval)))
+    # ---- 'failed' only after exactly `limit` attempts since the last successful connection (every episode)
+    if case.get("how") in ("error", "eof", "silent") and obs["connected"]:
+        marks = sorted([(t, 1, s_) for (t, s_) in obs["status_log"]] + [(t, 0, "attempt-ok" if ok else "attempt-failed") for (t, ok) in attempts])
+        n_failed = 0
+        for (t, _, what) in marks:
+            if what == "connected":
+                n_failed = 0
+            elif what.startswith("attempt"):
+                # an attempt counts as failed unless a 'connected' report follows it (an open that succeeds but
+                # whose handshake write fails is a failed attempt too)
+                n_failed += 1
+            elif what == "failed":
+                if limit is None or n_failed != limit:
+                    out.append(("C17:%s:failed-after-wrong-number-of-attempts" % drv,
+                                "'failed' reported at t=%.3f after %d failed reconnection attempts since the last successful "
+                                "connection; configured limit %r; status log %r" % (t - 1000.0, n_failed, limit,
+                                                                                   [(round(a - 1000.0, 3), b) for a, b in obs["status_log"]])))
+                n_failed = 0
+        if present_at_end and not failed and obs["_connected_at_end"] is False:
+            out.append(("C17:%s:never-reconnects" % drv, "device back since t=%.3f, 'failed' never reported, but the driver is still "
+                        "disconnected at t=%.1f; status log %r" % (restores[-1], obs["t_end"], obs["status_log"][-4:])))
     # ---- handshake repeated before any command after each (re)open (Tridonic)
     if drv == "tridonic":
         state = None
@@ -278,10 +299,14 @@ def loss_case(draw, driver=None):
             # the device is back but writes fail for a while (e.g. still enumerating): the handshake write fails
             events.append({"t": t_back + 0.001, "what": "write_fails"})
             events.append({"t": t_back + interval + 0.2, "what": "restore"})
-        if draw(st.integers(0, 4)) == 0:
-            t2 = t_back + interval * 4 + draw(st.sampled_from([0.0, 0.02, 0.5]))
-            events.append({"t": t2, "what": "lose", "notify": True})
-            events.append({"t": t2 + 0.4, "what": "restore"})
+        if back != "flaky-handshake" and draw(st.booleans()):
+            # further loss / return cycles: the reconnect budget must be fresh after every successful reconnection
+            t2 = t_back
+            for _ in range(draw(st.integers(1, 3))):
+                t2 = t2 + interval * 3 + draw(st.sampled_from([0.0, 0.02, 0.5]))
+                events.append({"t": t2, "what": "lose", "notify": True})
+                t2 = t2 + draw(st.sampled_from([0.2, 0.4]))
+                events.append({"t": t2, "what": "restore"})
         # a probe after everything: recovery must be clean
         t_probe = max(e["t"] for e in events) + interval * 5 + 1
         callers.append({"kind": "send", "cmds": [{"k": "qlevel", "a": 60, "oc": ["value", 0xA7]}], "t0": t_probe})
